@@ -397,6 +397,18 @@ func checkC05(sc *Scenario, t *Truth) []Violation {
 		} else if st.ExitCode == 0 {
 			vs = append(vs, Violation{"C05", "skipped-with-zero-exit-code", "", fmt.Sprintf("%s is Skipped but reports exit code 0", name), t.Final.Seq})
 		}
+		// once a project shutdown has begun, a process that is skipped (typically because
+		// that very shutdown ended its dependencies) neither starts another one nor changes
+		// the exit code
+		skipSeq := -1
+		for _, tr := range t.Trans[name] {
+			if tr.State == "Skipped" {
+				skipSeq = tr.Seq
+			}
+		}
+		if sd >= 0 && (skipSeq < 0 || sd < skipSeq) {
+			continue
+		}
 		if p.ExitOnSkipped && st.Status == "Skipped" && t.RunRet >= 0 && t.RunCode == 0 {
 			vs = append(vs, Violation{"C05", "exit-on-skipped-ignored", "", fmt.Sprintf("%s (exit_on_skipped) was skipped but Run() reported success", name), t.RunRet})
 		}
